@@ -22,7 +22,7 @@ FLOORS = {'quick': {'split': 250, 'piece-lib': 4000, 'piece-defn': 4000, 'input-
                     'decompose': 80, 'bezier-piece': 200},
           'thorough': {'split': 3000, 'piece-lib': 40000, 'decompose': 800}}
 MANDATORY_TAGS = ['curve', 'surface-u', 'surface-v', 'rational', 'on-knot', 'on-knot-full', 'in-span', 'near-start', 'dir:uv',
-                  'dir:u', 'dir:v', 'span:binary', 'unnormalized', 'interior-multiplicity-p+1', 'on-jump-knot', 'caller-knot-value', 'on-near-duplicate-knot']
+                  'dir:u', 'dir:v', 'span:binary', 'unnormalized', 'interior-multiplicity-p+1', 'on-jump-knot', 'caller-knot-value', 'on-near-duplicate-knot', 'decompose:unclamped']
 TECHNIQUE = ("runtime monitoring: exact reference-model oracle on every piece returned by split_* / decompose_* under the affine "
              "re-parametrisation, plus before/after digests of the input object")
 LEVEL_TEXT = ("Each split / decomposition performed by the workload is judged piece by piece against the exact original shape and "
@@ -42,6 +42,10 @@ def gen(rng, tier, shard, nshards):
             if sdd is not None:
                 yield {'kind': 'split', 'sd': sdd, 'seed': rng.randrange(1 << 30), 'span': rng.choice(['default', 'linear', 'binary']),
                        'discontinuous': True}
+        if i % 4 == 0:
+            # unclamped shapes: the pieces of a decomposition are Bezier pieces there as well
+            sdu = G.rand_shape(rng, pdim, kvcls=rng.choice(['unclamped', 'unclamped_rep']), normalize=rng.random() < 0.7, maxextra=4, maxdeg=3)
+            yield {'kind': 'split', 'sd': sdu, 'seed': rng.randrange(1 << 30), 'span': rng.choice(['default', 'linear', 'binary']), 'unclamped': True}
         if i % 4 == 3:
             # two DISTINCT interior knots closer than 1e-7 (0.3 next to 0.1 + 0.2, or a 5e-8 gap): the shape is split at one of them
             sdn = G.rand_shape(rng, pdim, clamped_only=True, normalize=rng.random() < 0.7, kvcls='random', maxextra=5, mindeg=2, maxdeg=4)
@@ -174,6 +178,8 @@ def check(case, ctx):
         d = rng.randrange(pdim)
         fine = rng.random() < 0.25
         pick = so.pick_insertion(rng, o, d, prefer_knot=0.45, fine=fine)
+        if pick is not None and pick[2].startswith('on-domain-end'):
+            pick = None          # (a split at a domain end is the rejected case, exercised below)
         U = G.kvs_of(o)[d]
         cnt = Counter(U)
         full = [k for k in so.interior_distinct(degs[d], U) if cnt[k] == degs[d]]
@@ -245,15 +251,26 @@ def check(case, ctx):
     for dd, U in zip(degs, G.kvs_of(o)):
         ks = sorted(set(U[dd:len(U) - dd]))
         ints.append(list(zip(ks, ks[1:])))
-    if pdim == 1:
-        pieces = operations.decompose_curve(o, **kw)
-        expected = [[iv] for iv in ints[0]]
-        desc = 'decompose_curve'
-        ctx.tag('curve')
-    else:
-        ddir = rng.choice(['u', 'v', 'uv'])
-        ctx.tag('dir:' + ddir)
-        pieces = operations.decompose_surface(o, decompose_dir=ddir, **kw)
+    uncl = bool(case.get('unclamped'))
+    if uncl:
+        ctx.tag('decompose:unclamped')
+    from geomdl.exceptions import GeomdlException
+    try:
+        if pdim == 1:
+            pieces = operations.decompose_curve(o, **kw)
+            expected = [[iv] for iv in ints[0]]
+            desc = 'decompose_curve'
+            ctx.tag('curve')
+        else:
+            ddir = rng.choice(['u', 'v', 'uv'])
+            ctx.tag('dir:' + ddir)
+            pieces = operations.decompose_surface(o, decompose_dir=ddir, **kw)
+    except GeomdlException as e:
+        if uncl:
+            ctx.fail('decompose/unclamped/raises', 'decomposition of a valid unclamped shape raised: %s' % e)
+            return
+        raise
+    if pdim == 2:
         if ddir == 'u':
             expected = [[iu, doms[1]] for iu in ints[0]]
         elif ddir == 'v':
@@ -267,13 +284,15 @@ def check(case, ctx):
                      % (desc, len(pieces), len(expected)), what='decompose-count'):
         return
     for k, (piece, sub) in enumerate(zip(pieces, expected)):
+        nbkey = 'decompose/not-bezier' if not uncl else 'decompose/unclamped/end-pieces-not-bezier'
         if pdim == 1 or desc.endswith('(uv)'):
-            ctx.check(is_bezier(piece), 'decompose/not-bezier', '%s: piece %d is not a Bezier piece (sizes %r, degrees %r)'
-                      % (desc, k, G.sizes_of(piece), G.degrees_of(piece)), what='bezier-piece')
+            ctx.check(is_bezier(piece), nbkey, '%s: piece %d of %d is not a Bezier piece (sizes %r, degrees %r, knot vectors %r)'
+                      % (desc, k, len(pieces), G.sizes_of(piece), G.degrees_of(piece), G.kvs_of(piece)), what='bezier-piece')
         else:
             dcheck = 0 if desc.endswith('(u)') else 1
-            ctx.check(G.sizes_of(piece)[dcheck] == degs[dcheck] + 1, 'decompose/not-bezier', '%s: piece %d is not Bezier in the '
-                      'decomposed direction' % (desc, k), what='bezier-piece')
+            kvd = G.kvs_of(piece)[dcheck]
+            ctx.check(G.sizes_of(piece)[dcheck] == degs[dcheck] + 1 and len(set(kvd)) == 2, nbkey, '%s: piece %d is not Bezier in the '
+                      'decomposed direction (knot vector %r)' % (desc, k, kvd), what='bezier-piece')
         if not judge_piece(ctx, rng, piece, S0, sub, tol, '%s piece %d of %d' % (desc, k, len(pieces)), expect_degrees=degs):
             return
     ctx.nontriv(interior_any or sd['rational'])
